@@ -9,5 +9,8 @@ Seeds == { Tab.weights[i].cp : i \in 1..Len(Tab.weights) } \cup
          { Tab.scat[i].cp : i \in {1, 2, 3, Len(Tab.scat)} }
 MC_UniverseSmall == LET H == <<72>> He == <<72, 101>> H1 == <<49, 72>>
                     IN {H, He, H1} \cup NearMisses(H) \cup NearMisses(He) \cup NearMisses(H1)
+(* the same with the other notations ("H1", "H-1", ...) and the neighbouring mass numbers of 1H: histories of *)
+(* two lookups (the thorough histories of three lookups keep the smaller universe for their time budget)      *)
+MC_UniverseNotation == MC_UniverseSmall \cup OtherNotations(<<49, 72>>) \cup Neighbours(<<49, 72>>)
 MC_UniverseLarge == Seeds \cup UNION { NearMisses(n) : n \in Seeds }
 =============================================================================
